@@ -139,6 +139,9 @@ UNITS = [
          trusted=["_find_action / _is_branch_key / _find_parent_action_and_subcommand classify a key as: has an action / prefix of declared keys / below an action (assumed contracts, exercised by the bounded harness)",
                   "cfg.get_sorted_keys() lists every leaf key of the configuration"]),
 ]
+from contracts.adapt_arms import dataclass_unit  # noqa: E402
+UNITS.append(dataclass_unit("C06"))
+
 VERIFIED_CALLEES = ("check_required",)
 LEVEL = "other"
 TECHNIQUE = "contract-based deductive verification of validate's nested check functions (VCs from the real AST, recursion by contract) + bounded run-time contract checking: one foreign key inserted / one required key removed at every tree position"
